@@ -357,7 +357,7 @@ Proof. apply write_vtt_c_no_panic. Qed.
    Each function below is the checked function of Model/VttC.v with ONE guard removed and nothing else changed.  On the
    input shown it returns Panic at the site the guard stands in front of, while the guarded function returns Ok / Err on
    the same input.  (Go side: the index / slice expressions on these operand lengths do panic, checked with a throw-away
-   program, and sites 364, 251 and 659 replayed on the library with the guard deleted: notes/C02.md N6.) *)
+   program, and sites 364, 659, 662, 688, 695, 704, 714 replayed on the library with the guard deleted: notes/C02.md N6.) *)
 (* emptiness test before [:len-1]: "if len(sa.WebVTTTags) > 0" removed (webvtt.go:363) *)
 Fixpoint vtt_toks_c_noguard (ts : list htok) (tags : list vtag) (voice : str) (acc : list vrun) : res (list vrun * str * list vtag) :=
   match ts with
